@@ -29,6 +29,26 @@ CLAIMS = {
 CONFIGS = ["", "fast mmx sse2 ssse3", "sse2 ssse3", "mmx sse2 ssse3", "ssse3", "wholeops"]
 
 
+def edge_aligned_trapezoids(rng):
+    """trapezoids whose edges lie exactly on, one unit inside and one unit outside the image border, on alpha images
+       whose rows are contiguous (no padding) and whose width is / is not a multiple of the word size: the last
+       sample of a row is then adjacent to the next row resp. to the end of the storage"""
+    out = []
+    a8, a1, a4 = F["a8"], F["a1"], fmt4()
+    for dfmt in (a8, a8, a4, a1):
+        for dw in (4, 8, 3, 12, 32):
+            dh = rng.choice([1, 2, 4])
+            for rx in (dw * FX1, dw * FX1 - 1, dw * FX1 + 1, (dw + 3) * FX1):
+                for lx in (0, -1, 1, -2 * FX1):
+                    for (top, bot) in ((0, dh * FX1), (-FX1, (dh + 1) * FX1), (FX1 // 2, dh * FX1 - 1)):
+                        for mode in (0, 1, 2):
+                            for tk in (0, 1):
+                                vals = [top, bot, lx, top, lx, bot, rx, top, rx, bot]
+                                f = [mode, dfmt, dw, dh, 1] + vals + [0, 0, rng.randrange(1, 2 ** 31), tk | 8]
+                                out.append("T %d %s" % (len(f), " ".join(str(int(x)) for x in f)))
+    return out
+
+
 def gen(rng, n):
     out = []
     fm = [F[k] for k in ("a8r8g8b8", "x8r8g8b8", "r5g6b5", "a8", "a1", "r8g8b8", "a4r4g4b4", "x2r10g10b10", "r3g3b2")]
@@ -128,7 +148,10 @@ def run(prop, args):
 
     exe, px = vf.build_driver("drv_bounds", "plain")
     chk.extra["build"] = px["hash"]
-    reqs = gen(rng, 900 if quick else 6000)
+    reqs = gen(rng, 700 if quick else 6000)
+    edge = edge_aligned_trapezoids(rng)
+    reqs += edge if not quick else rng.sample(edge, 700)
+    chk.extra["edge_aligned_trapezoid_requests"] = len(edge)
     chk.sample({"request_script_lines": reqs[:2]})
     configs = CONFIGS[:3] if quick else CONFIGS
     traces = []
